@@ -23,6 +23,11 @@ PROPS = {
             "explanation": "oracle C07.spec_decoder_reads_serializer_output: extracted independent spec decoder on the real serializer's bytes"},
     "C08": {"components": ["chunk"], "rule": CHUNK_RULE,
             "explanation": "oracle C08.drop_roundtrip: real serializer output minus any subset of droppable packets decodes to the kept messages"},
+    "C13": {"components": ["msg"],
+            "rule": "msg: every message variant with boundary u32 field values, random AMF0 argument lists (incl. inexpressible ones), all 9 user-control events; "
+                    "all 256 type ids with boundary, well-formed and random bodies, AMF0 bodies (incl. ECMA arrays, truncations) under ids 18/20/15/17; "
+                    "non-trivial = at least three tokens",
+            "explanation": "oracles: C13.layout_is_spec (real bytes = extracted spec layout), C13.roundtrip (real decode(real encode m) = m), unknown_passthrough, amf3 aliases, chunk_size_bound"},
     "C16": {"components": ["chunk"], "rule": CHUNK_RULE,
             "explanation": "oracle C06.foreign_stream restricted to interleaved streams (every second fde case)"},
     "C04": {"components": ["amf0"], "rule": AMF0_RULE,
